@@ -185,6 +185,8 @@ let parse_tval s =
 let client_strs n v b = [ unhx n; unhx v ] @ if b = "none" then [] else [ unhx b ]
 
 type st = {
+  mutable bcalls : bcall list;
+  mutable bseq : n;
   mutable cur : record option;
   saved : (int, record) Hashtbl.t;
   keys : (string, skey) Hashtbl.t;
@@ -317,8 +319,8 @@ let run_line c kt (st : st) (line : string) (impl_line : string) : string =
         | None -> "unmodelled"
         | Some (Ok r) ->
             st.cur <- Some r;
-            Printf.sprintf "ok sgn=- %s %s" (vfy_of r) (rec_obs c kt r)
-        | Some (Err _) -> "err"
+            Printf.sprintf "ok sgn=- %s alt=1 %s" (vfy_of r) (rec_obs c kt r)
+        | Some (Err _) -> "err alt=1"
         | Some Panic -> "panic model")
     | "build" -> (
         match Hashtbl.find_opt st.keys t.(1) with
@@ -327,7 +329,23 @@ let run_line c kt (st : st) (line : string) (impl_line : string) : string =
             let sg, show = mk_signer impl_line in
             let sq = if t.(3) = "-" then n_of_int 1 else n_of_dec t.(3) in
             let calls = List.map parse_bcall (Array.to_list (Array.sub t 4 (Array.length t - 4))) in
+            st.bcalls <- calls;
+            st.bseq <- sq;
             match build c kt sq calls k sg with
+            | Ok r ->
+                st.cur <- Some r;
+                Printf.sprintf "ok %s vfy=- %s" (show ()) (rec_obs c kt r)
+            | Err e -> Printf.sprintf "err kind=%s %s vfy=-" (err_kind e) (show ())
+            | Panic -> "panic model"))
+    | "rebuild" -> (
+        (* the same builder object again: its earlier calls, then the new ones *)
+        match Hashtbl.find_opt st.keys t.(1) with
+        | None -> "nokey"
+        | Some k -> (
+            let sg, show = mk_signer impl_line in
+            let calls = st.bcalls @ List.map parse_bcall (Array.to_list (Array.sub t 3 (Array.length t - 3))) in
+            st.bcalls <- calls;
+            match build c kt st.bseq calls k sg with
             | Ok r ->
                 st.cur <- Some r;
                 Printf.sprintf "ok %s vfy=- %s" (show ()) (rec_obs c kt r)
@@ -351,6 +369,8 @@ let run_line c kt (st : st) (line : string) (impl_line : string) : string =
             Printf.sprintf "%s %s vfy=- %s" head (show ()) (rec_obs c kt r'))
     | "reset" ->
         st.cur <- None;
+        st.bcalls <- [];
+        st.bseq <- n_of_int 1;
         Hashtbl.reset st.saved;
         Hashtbl.reset st.keys;
         "reset"
@@ -441,7 +461,7 @@ let () =
   oracle_in := i;
   oracle_out := o;
   let c = mk_crypto backend in
-  let st = { cur = None; saved = Hashtbl.create 16; keys = Hashtbl.create 16 } in
+  let st = { bcalls = []; bseq = n_of_int 1; cur = None; saved = Hashtbl.create 16; keys = Hashtbl.create 16 } in
   (try
      while true do
        let line = input_line cmds in
